@@ -11,7 +11,10 @@ import (
 	"strings"
 	"unicode/utf8"
 
+	"github.com/thought-machine/please/src/cli"
+	"github.com/thought-machine/please/src/core"
 	"github.com/thought-machine/please/src/fs"
+	"github.com/thought-machine/please/src/parse"
 	"verif/harness/lib"
 )
 
@@ -616,6 +619,10 @@ func allNames(kids []*node, f func(string) bool) bool {
 
 func runOp(r *lib.Run, op string) {
 	f := strings.Split(op, " ")
+	if len(f) >= 4 && f[0] == "globseq" {
+		runSeq(r, op, f)
+		return
+	}
 	if len(f) != 8 || f[0] != "glob" || (f[5] != "0" && f[5] != "1") || (f[6] != "0" && f[6] != "1") {
 		r.Emit(op, "bad-op", false)
 		return
@@ -754,6 +761,228 @@ func classify(q query, rn *node, got []string, panicked bool) string {
 		}
 	}
 	return "unexplained"
+}
+
+// ---------------------------------------------------------------- call sequences on one Globber (what one BUILD file does)
+
+type call struct {
+	q    query
+	root string
+}
+
+func encCall(c call) string {
+	return strings.Join([]string{lib.Hex(c.root), encList(c.q.includes), encList(c.q.excludes), b01(c.q.hidden), b01(c.q.symlinks)}, "/")
+}
+
+func mkSeqOp(bn []string, kids []*node, calls []call) string {
+	parts := []string{"globseq", encList(bn), encTree(kids)}
+	for _, c := range calls {
+		parts = append(parts, encCall(c))
+	}
+	return strings.Join(parts, " ")
+}
+
+var (
+	aspState  *core.BuildState
+	aspUses   int
+)
+
+func quoteAsp(s string) string { // quoteForVerif of src/parse/asp/c16_verif.go
+	var b strings.Builder
+	b.WriteByte('"')
+	for i := 0; i < len(s); i++ {
+		switch c := s[i]; {
+		case c == '"':
+			b.WriteString(`\"`)
+		case c == '\\':
+			b.WriteString(`\\\\`)
+		default:
+			b.WriteByte(c)
+		}
+	}
+	b.WriteByte('"')
+	return b.String()
+}
+
+func pyStrList(xs []string) string {
+	p := make([]string, len(xs))
+	for i, x := range xs {
+		p[i] = quoteAsp(x)
+	}
+	return "[" + strings.Join(p, ", ") + "]"
+}
+
+// aspEval evaluates a BUILD file with one glob() call per element of calls through the real interpreter, in the
+// current directory, as package `root`; returns the rendered globals.
+func aspEval(root string, bn []string, calls []call) (out string, err error) {
+	defer func() {
+		if e := recover(); e != nil {
+			out, err = "", fmt.Errorf("panic: %v", e)
+		}
+	}()
+	if aspState == nil || aspUses > 300 {
+		cli.InitLogging(0)
+		aspState = core.NewDefaultBuildState()
+		parse.InitParser(aspState)
+		aspUses = 0
+	}
+	aspUses++
+	aspState.Config.Parse.BuildFileName = bn
+	var src strings.Builder
+	for i, c := range calls {
+		py := func(b bool) string {
+			if b {
+				return "True"
+			}
+			return "False"
+		}
+		fmt.Fprintf(&src, "r%d = glob(include = %s, exclude = %s, hidden = %s, include_symlinks = %s, allow_empty = True)\n", i,
+			pyStrList(c.q.includes), pyStrList(c.q.excludes), py(c.q.hidden), py(c.q.symlinks))
+	}
+	pkg := core.NewPackage(root)
+	pkg.Filename = filepath.Join(root, "BUILD")
+	return parse.GetAspParser(aspState).EvalForVerif(pkg, []byte(src.String()), core.ParseModeNormal, false)
+}
+
+func runSeq(r *lib.Run, op string, f []string) {
+	bn, ok1 := decList(f[1])
+	kids, ok2 := decTree(f[2])
+	if !ok1 || !ok2 {
+		r.Emit(op, "bad-op", false)
+		return
+	}
+	var calls []call
+	for _, cs := range f[3:] {
+		p := strings.Split(cs, "/")
+		if len(p) != 5 || (p[3] != "0" && p[3] != "1") || (p[4] != "0" && p[4] != "1") {
+			r.Emit(op, "bad-op", false)
+			return
+		}
+		root, o1 := unhex(p[0])
+		inc, o2 := decList(p[1])
+		exc, o3 := decList(p[2])
+		if !(o1 && o2 && o3) {
+			r.Emit(op, "bad-op", false)
+			return
+		}
+		q := query{buildNames: bn, includes: inc, excludes: exc, hidden: p[3] == "1", symlinks: p[4] == "1"}
+		if root != "" {
+			q.root = strings.Split(root, "/")
+		}
+		calls = append(calls, call{q, root})
+	}
+	modelled := allNames(kids, plainName)
+	for _, b := range bn {
+		modelled = modelled && plainName(b)
+	}
+	for _, c := range calls {
+		for _, p := range append(append([]string{}, c.q.includes...), c.q.excludes...) {
+			modelled = modelled && modelledPattern(p)
+		}
+	}
+	caseNo++
+	dir := filepath.Join(scratch, fmt.Sprintf("t%d", caseNo))
+	if err := os.Mkdir(dir, 0o755); err != nil {
+		panic(err)
+	}
+	if err := materialise(dir, kids, sentinel); err != nil {
+		panic(fmt.Sprintf("cannot create tree for %s: %v", op, err))
+	}
+	if err := os.Chdir(dir); err != nil {
+		panic(err)
+	}
+	defer func() {
+		os.Chdir(home)
+		os.RemoveAll(dir)
+	}()
+	glob1 := func(g *fs.Globber, c call) (got []string, failed bool) {
+		defer func() {
+			if recover() != nil {
+				failed = true
+			}
+		}()
+		exclude := append(append([]string{}, c.q.excludes...), bn...)
+		return g.Glob(c.root, c.q.includes, exclude, c.q.hidden, c.q.symlinks), false
+	}
+	shared := fs.NewGlobber(fs.HostFS, bn) // ONE Globber for the whole sequence, like asp's scope.globber
+	var outs []string
+	var raw [][]string
+	anyFailed, sameRoot, nontrivial := false, true, false
+	for i, c := range calls {
+		if c.root != calls[0].root {
+			sameRoot = false
+		}
+		rn, found := find(kids, c.q.root)
+		if !found {
+			outs = append(outs, "no-root")
+			raw = append(raw, nil)
+			anyFailed = true
+			continue
+		}
+		if rn.kind != 'd' {
+			outs = append(outs, "root-not-dir")
+			raw = append(raw, nil)
+			anyFailed = true
+			continue
+		}
+		got, failed := glob1(shared, c)
+		raw = append(raw, got)
+		if failed {
+			outs = append(outs, "error")
+			anyFailed = true
+		} else {
+			outs = append(outs, showNames(got))
+		}
+		// oracle 1: the walk cache must be transparent -- the same call on a Globber of its own
+		alone, failedAlone := glob1(fs.NewGlobber(fs.HostFS, bn), c)
+		if failed != failedAlone || (!failed && showNames(got) != showNames(alone)) {
+			r.OracleFail("globber-cache-not-transparent", op, fmt.Sprintf("call %d of the sequence returns %q on the shared Globber but %q on a fresh one",
+				i+1, dedup(got), dedup(alone)))
+		}
+		// oracle 2: every call against the reference, as for single calls
+		want, defined := ref(c.q, rn, devs{})
+		switch {
+		case !defined:
+			r.Count("oracle:pattern-outside-spec-fragment")
+		case failed:
+			if !(contains(c.q.includes, "") || contains(c.q.excludes, "")) {
+				r.OracleFail(classify(c.q, rn, nil, true), op, fmt.Sprintf("call %d: Glob panicked; specified=%q", i+1, keys(want)))
+			}
+		case setEq(want, got):
+			r.Count("oracle:agree")
+			nontrivial = nontrivial || len(want) > 0
+		default:
+			r.OracleFail(classify(c.q, rn, got, false), op, fmt.Sprintf("call %d: Glob=%q specified=%q", i+1, dedup(got), keys(want)))
+		}
+	}
+	// end to end: the same calls as glob() statements of one BUILD file, through the real interpreter
+	if sameRoot && !anyFailed && len(calls) <= 9 {
+		r.Count("seq:also-through-asp")
+		want := "{"
+		for i := range calls {
+			if i > 0 {
+				want += ","
+			}
+			q := make([]string, len(raw[i]))
+			for j, x := range raw[i] {
+				q[j] = quoteAsp(x)
+			}
+			want += fmt.Sprintf("%s:[%s]", quoteAsp(fmt.Sprintf("r%d", i)), strings.Join(q, ","))
+		}
+		want += "}"
+		if got, err := aspEval(calls[0].root, bn, calls); err != nil {
+			r.OracleFail("asp-glob-error", op, "BUILD file with the same glob() calls failed: "+err.Error())
+		} else if got != want {
+			r.OracleFail("asp-glob-differs-from-globber", op, "interpreter: "+got+" shared Globber: "+want)
+		}
+	}
+	r.Count(fmt.Sprintf("seq:len=%d", len(calls)))
+	out := strings.Join(outs, "|")
+	if !modelled {
+		r.Count("unmodelled")
+		out = "unmodelled"
+	}
+	r.Emit(op, out, nontrivial && len(calls) >= 2)
 }
 
 // ---------------------------------------------------------------- generator
@@ -922,6 +1151,69 @@ func (g *gen) one() string {
 	return mkOp(q, kids)
 }
 
+// seq: several calls on one tree, mostly in one package, with mixed hidden flags and overlapping patterns
+func (g *gen) seq() string {
+	rng := g.r.Rng
+	g.dirs, g.all = nil, nil
+	g.bn = []string{"BUILD", "BUILD.plz"}
+	kids := g.tree(nil, 0)
+	var root []string
+	if rng.Chance(50) && len(g.dirs) > 0 {
+		root = lib.Pick(rng, g.dirs)
+	}
+	n := 2 + rng.Intn(3)
+	var calls []call
+	var prev []string
+	for i := 0; i < n; i++ {
+		rt := root
+		if rng.Chance(15) && len(g.dirs) > 0 {
+			rt = lib.Pick(rng, g.dirs) // another package directory on the same Globber
+		}
+		q := query{root: rt, buildNames: g.bn, hidden: rng.Chance(50), symlinks: !rng.Chance(20)}
+		switch x := rng.Intn(100); {
+		case x < 35 && len(prev) > 0:
+			q.includes = append([]string{}, prev...) // the same patterns again, typically with the other flag
+		case x < 60:
+			q.includes = []string{lib.Pick(rng, []string{"*", "**", ".*", "**/.*", "*/*", "**/*"})}
+		default:
+			for j := 1 + rng.Intn(2); j > 0; j-- {
+				q.includes = append(q.includes, g.pattern(rt))
+			}
+		}
+		prev = q.includes
+		if rng.Chance(25) {
+			q.excludes = []string{g.mutateComp(lib.Pick(rng, pool))}
+		}
+		calls = append(calls, call{q, strings.Join(rt, "/")})
+	}
+	return mkSeqOp(g.bn, kids, calls)
+}
+
+// exhaustiveSeq: one tree with hidden files and a hidden directory x every pair of (pattern, hidden) calls x two roots
+func exhaustiveSeq(r *lib.Run) {
+	f := func(n string) *node { return &node{name: n, kind: 'f'} }
+	d := func(n string, kids ...*node) *node { return &node{name: n, kind: 'd', kids: kids} }
+	kids := []*node{f("BUILD"), f("a.txt"), f(".h.txt"), f("#x#"), d(".hid", f("b.txt")), d("d", f("c.txt"), f(".e")),
+		d("pkg", f("BUILD"), f("p.txt"), f(".q"), d("s", f(".t"), f("u.txt")))}
+	pats := []string{"*", "**", ".*", "*.txt"}
+	for _, root := range []string{"", "pkg"} {
+		for _, p1 := range pats {
+			for _, p2 := range pats {
+				for h := 0; h < 4; h++ {
+					var rc []string
+					if root != "" {
+						rc = []string{root}
+					}
+					c1 := call{query{root: rc, buildNames: []string{"BUILD"}, includes: []string{p1}, hidden: h&1 != 0, symlinks: true}, root}
+					c2 := call{query{root: rc, buildNames: []string{"BUILD"}, includes: []string{p2}, hidden: h&2 != 0, symlinks: true}, root}
+					runOp(r, mkSeqOp([]string{"BUILD"}, kids, []call{c1, c2}))
+					r.Count("exhaustive-sequences")
+				}
+			}
+		}
+	}
+}
+
 // exhaustive family: a fixed tree with every interesting kind of entry x a table of patterns x roots x hidden flag
 func exhaustive(r *lib.Run) {
 	f := func(n string) *node { return &node{name: n, kind: 'f'} }
@@ -982,10 +1274,15 @@ func main() {
 		return
 	}
 	exhaustive(r)
+	exhaustiveSeq(r)
 	r.Exhaust = true
 	g := &gen{r: r, depth: r.N(3, 4)}
 	for i := 0; i < r.N(2500, 25000); i++ {
-		runOp(r, g.one())
+		if i%4 == 3 {
+			runOp(r, g.seq())
+		} else {
+			runOp(r, g.one())
+		}
 	}
 	for _, op := range []string{"glob", "glob - _ _ _ 0 1", "glob - _ _ _ 2 1 _", "glob zz _ 2a _ 0 1 _", "glob - _ 2a _ 0 1 d61", "nonsense"} {
 		runOp(r, op)
